@@ -3,6 +3,7 @@ package main
 // C10 — the request server is a faithful adapter in both directions.
 
 import (
+	"encoding/binary"
 	"errors"
 	"fmt"
 	"io"
@@ -437,6 +438,46 @@ func runC10(c *Ctx) {
 					}
 					rs.do(rawHandleOp(fxpClose, 9, h))
 					rec.take()
+				}
+				// the other direction: what the handler returned reaches the client unchanged in kind. The recording handlers return
+				// one entry {name "name", size 3} together with io.EOF from ListAt (as the ListerAt contract allows), "/tgt" from
+				// Readlink, "/real" from RealPath and Bsize 512 from StatVFS.
+				if ok && err == nil && resp != nil {
+					firstName := func() (string, bool) {
+						if resp.Typ != fxpName || len(resp.Body) < 8 || binary.BigEndian.Uint32(resp.Body) != 1 {
+							return "", false
+						}
+						l := binary.BigEndian.Uint32(resp.Body[4:])
+						if uint64(l)+8 > uint64(len(resp.Body)) {
+							return "", false
+						}
+						return string(resp.Body[8 : 8+l]), true
+					}
+					switch kind {
+					case "stat", "lstat":
+						if resp.Typ != fxpAttrs || len(resp.Body) < 12 || binary.BigEndian.Uint32(resp.Body)&1 == 0 || binary.BigEndian.Uint64(resp.Body[4:]) != 3 {
+							ok, why = false, fmt.Sprintf("reply-altered: the handler returned one entry of size 3 for %s (with io.EOF in the same ListAt call); the client got %s", kind, pgTypeName(resp.Typ))
+							if code, isStatus := resp.statusCode(); isStatus {
+								why += fmt.Sprintf(" %d", code)
+							}
+						}
+					case "readlink":
+						want := "name"
+						if i.readlink {
+							want = "/tgt"
+						}
+						if got, isName := firstName(); !isName || got != want {
+							ok, why = false, fmt.Sprintf("reply-altered: readlink: the handler returned %q; the client got %s %q", want, pgTypeName(resp.Typ), got)
+						}
+					case "realpath":
+						if got, isName := firstName(); !isName || (i.realpath && got != "/real") {
+							ok, why = false, fmt.Sprintf("reply-altered: realpath: the client got %s %q", pgTypeName(resp.Typ), got)
+						}
+					case "statvfs":
+						if i.statvfs && (resp.Typ != fxpExtendedReply || len(resp.Body) < 8 || binary.BigEndian.Uint64(resp.Body) != 512) {
+							ok, why = false, "reply-altered: statvfs: the handler returned Bsize 512; the client got "+pgTypeName(resp.Typ)
+						}
+					}
 				}
 				c.Oracle(n, ok, why)
 				c.Stat("req_" + kind)
